@@ -408,6 +408,14 @@ impl World {
                     self.slots[i].user_data = ud;
                     k.owners.insert(ud, self.slots[i].id);
                     effects::hold_published(sqe);
+                    // C05: from now on unpublished/returned completion slots name
+                    // this live operation: interpreting one resolves it with
+                    // the poison result.
+                    if self.slots[i].kind.class() == Class::Single && ud & 1 == 0 {
+                        if let Some(r) = k.rings.get_mut(&self.ring_fd) {
+                            r.trap_user_data = ud;
+                        }
+                    }
                 }
             }
         }
@@ -709,8 +717,7 @@ impl World {
         for m in crate::mon::logsink::take() {
             if m.contains("unexpected completion") {
                 self.violation("C05", "unpublished-or-returned-slot-interpreted", format!("a10 logged: {m}"));
-            } else if m.contains("unexpected cancelation") {
-                self.violation("C05", "trap-cancel-interpreted", format!("a10 logged: {m}"));
+                self.poisoned = true;
             } else {
                 self.ev(format!("log:{m}"));
             }
